@@ -962,6 +962,33 @@ Proof.
   apply (write_temp_gone w (mkenv d (tmp_of pid d) ov p adv) f f' r Hw (tmp_of_ne pid d) Hab Hm H).
 Qed.
 
+(* the two statements about the temporary, for a step list whose __exit__ cleans up in a finally part *)
+Hypothesis Hct : cleanup_total w = true.
+
+Theorem headline_atomic_total : forall f pid d ov p k f' e,
+  f (tmp_of pid d) = Absent ->
+  write_with_failure_at k w d (tmp_of pid d) ov p f = (f', Err e) ->
+  (f' d = f d \/ (k = FPost /\ f' d = File (spec_render_r (w_strips w) p))) /\
+  (k <> FRemove -> f' (tmp_of pid d) = Absent) /\
+  (forall q, q <> d -> q <> tmp_of pid d -> f' q = f q).
+Proof.
+  intros f pid d ov p k f' e Hab H.
+  destruct (headline_atomic f pid d ov p k f' e Hab H) as (H1 & H2 & H3).
+  repeat split; auto.
+  intros Hk. apply H2. apply may_leave_total; auto.
+  destruct k; simpl; auto; congruence.
+Qed.
+
+Theorem headline_no_leftover_total : forall f pid d ov p adv f' r,
+  f (tmp_of pid d) = Absent ->
+  a_remove adv = false ->
+  run_writer w (mkenv d (tmp_of pid d) ov p adv) f = (f', r) -> f' (tmp_of pid d) = Absent.
+Proof.
+  intros f pid d ov p adv f' r Hab Hm H.
+  apply (headline_temp_gone f pid d ov p adv f' r Hab); [|exact H].
+  unfold may_leave_temp. rewrite Hct. exact Hm.
+Qed.
+
 Theorem headline_frame : forall f pid d ov p adv f' r q,
   run_writer w (mkenv d (tmp_of pid d) ov p adv) f = (f', r) ->
   q <> d -> q <> tmp_of pid d -> f' q = f q.
